@@ -190,6 +190,34 @@ func c04Buf(p *model.Prog, r *report.Result) {
 			r.Check(isK && k >= 0 && k <= minNew, "C04.BUF", fkey(fn, "modwritepos", "arg"), p.InstrPos(ci), "constant position inside the initial allocation", fmt.Sprintf("ModWritePos is called with a position that is not a constant within the smallest NewBuffer allocation (%d bytes): writePos may exceed len(core)", minNew))
 		}
 	}
+	// grow(n): the doubling loop ends only when the new capacity minus what is buffered holds n
+	grow := p.Method("pkg/rtmp", "Buffer", "grow")
+	growOK := false
+	for _, l := range model.Loops(grow) {
+		iff, ok := l.Header.Instrs[len(l.Header.Instrs)-1].(*ssa.If)
+		if !ok {
+			continue
+		}
+		bo, isB := iff.Cond.(*ssa.BinOp)
+		if !isB || bo.Op != token.LSS || bo.Y != ssa.Value(grow.Params[1]) {
+			continue
+		}
+		terms, _ := linTerms(bo.X)
+		hasNew, hasLen := false, false
+		for v, c := range terms {
+			if ph, isP := v.(*ssa.Phi); isP && ph.Block() == l.Header && c == 1 {
+				hasNew = true
+			}
+			if call, isC := v.(*ssa.Call); isC && c == -1 && model.SameFunc(model.CalleeObj(call.Common()), lenObj) {
+				hasLen = true
+			}
+			if c == -1 && model.IsLoadOfField(v, wposF) {
+				hasLen = true
+			}
+		}
+		growOK = hasNew && hasLen
+	}
+	r.Check(growOK, "C04.BUF", fkey(grow, "grow", "room-for-buffered-plus-n"), p.Pos(grow.Pos()), "loop ends when newLen - Len() >= n", "grow()'s enlarging loop does not subtract what the buffer already holds: for a write that fits the new capacity alone but not together with the buffered bytes, Write copies short and writePos passes the capacity (slice bounds panic in the packer for stream names of 481..512, 993..1024 ... bytes)")
 	r.Count("buffer_field_stores", nStores)
 	r.Count("modwritepos_sites", nMod)
 	if nStores < 9 || nMod < 10 || nNew < 1 {
